@@ -34,7 +34,23 @@ type cfgLint struct {
 var (
 	c11Lints []cfgLint
 	c11Objs  []*mon.Obj
+	// c11Pristine: no-configuration results taken once per process, before any configuration was ever installed
+	c11Pristine = map[string]mon.Snap{}
 )
+
+func c11TakePristine() {
+	g := lint.GlobalRegistry()
+	for _, o := range c11Objs {
+		if _, ok := c11Pristine[o.Name]; ok {
+			continue
+		}
+		if fo := o.Reparse(); fo != nil {
+			if rs, pv, _ := fo.Lint(g); pv == nil && rs != nil {
+				c11Pristine[o.Name] = mon.SnapOf(rs)
+			}
+		}
+	}
+}
 
 func c11Discover() {
 	c11Lints = nil
@@ -122,6 +138,11 @@ func runInstance(li mon.LintInfo, o *mon.Obj, inst any) mon.SD {
 }
 
 // section is one lint's part of a generated document.
+// c11Words: what a string- or list-valued option of a certificate lint might plausibly take
+var c11Words = []string{"Organization", "CommonName", "Country", "OrganizationalUnit", "Locality", "Province", "StreetAddress", "PostalCode", "SerialNumber", "GivenName", "Surname", "EmailAddress",
+	"DomainComponent", "JurisdictionLocality", "JurisdictionProvince", "JurisdictionCountry", "O", "CN", "C", "OU", "L", "ST", "2.5.4.10", "2.5.4.3", "subject", "issuer", "dNSName", "*", "", "all", "none",
+	"e_ca_is_ca", "example.com", "US"}
+
 type section struct {
 	lint string
 	text string
@@ -150,7 +171,34 @@ func c11Sections(cl cfgLint) []section {
 			}
 		case reflect.String:
 			add(f.Name+`="x"`, fmt.Sprintf("[%s]\n%s = \"x\"\n", n, f.Name))
+			for _, w := range c11Words {
+				add(f.Name+"="+w, fmt.Sprintf("[%s]\n%s = %q\n", n, f.Name, w))
+			}
 			add(f.Name+"=7 (ill-typed?)", fmt.Sprintf("[%s]\n%s = 7\n", n, f.Name))
+		case reflect.Slice, reflect.Array:
+			// list-valued options (none shipped today): lists of plausible words - certificate field names, attribute
+			// short names, OIDs, lint names, wildcards - singly and in pairs, so that an option of this shape meets
+			// values it can act on; plus ill-typed forms
+			for i, w := range c11Words {
+				add(f.Name+"=["+w+"]", fmt.Sprintf("[%s]\n%s = [%q]\n", n, f.Name, w))
+				if i%3 == 0 {
+					add(f.Name+"=["+w+", ...]", fmt.Sprintf("[%s]\n%s = [%q, %q]\n", n, f.Name, w, c11Words[(i+5)%len(c11Words)]))
+				}
+			}
+			add(f.Name+"=[]", fmt.Sprintf("[%s]\n%s = []\n", n, f.Name))
+			add(f.Name+"=[1, 2]", fmt.Sprintf("[%s]\n%s = [1, 2]\n", n, f.Name))
+			for _, v := range []string{`"x"`, `7`, `true`, `{a = 1}`, `[["x"]]`, `[1, "x"]`} {
+				add(f.Name+"="+v+" (ill-typed?)", fmt.Sprintf("[%s]\n%s = %s\n", n, f.Name, v))
+			}
+		case reflect.Map:
+			add(f.Name+"={}", fmt.Sprintf("[%s]\n%s = {}\n", n, f.Name))
+			add(f.Name+"={Organization = true}", fmt.Sprintf("[%s]\n%s = {Organization = true, CommonName = \"x\"}\n", n, f.Name))
+			add(f.Name+"=7 (ill-typed?)", fmt.Sprintf("[%s]\n%s = 7\n", n, f.Name))
+		case reflect.Float32, reflect.Float64:
+			for _, v := range []string{"0.0", "0.5", "1.0", "-1.5", "1e9"} {
+				add(f.Name+"="+v, fmt.Sprintf("[%s]\n%s = %s\n", n, f.Name, v))
+			}
+			add(f.Name+`="x" (ill-typed?)`, fmt.Sprintf("[%s]\n%s = \"x\"\n", n, f.Name))
 		}
 		add("lower-case key", fmt.Sprintf("[%s]\n%s = true\n", n, strings.ToLower(f.Name)))
 	}
@@ -458,6 +506,7 @@ func init() {
 			}
 			c11Discover()
 			c11BuildObjs(c)
+			c11TakePristine() // before this process installs any configuration (c11Discover only builds instances)
 			c11BuildDocs(c)
 			if len(c11Lints) == 0 {
 				return fmt.Errorf("no configurable lint discovered")
@@ -478,7 +527,17 @@ func init() {
 			if pv != nil || bs == nil {
 				return
 			}
-			base := mon.SnapOf(bs)
+			// the baseline is the one taken when this process had never seen a configuration; what the unconfigured
+			// global registry gives NOW must still be that (a configuration of an earlier run must not outlive it)
+			base, ok := c11Pristine[o.Name]
+			if !ok {
+				base = mon.SnapOf(bs)
+			} else {
+				for _, df := range dropClock(today(), mon.Diff(base, mon.SnapOf(bs), false, false)) {
+					name := strings.SplitN(df, ":", 2)[0]
+					c.V("configuration-outlives-run|"+name, fmt.Sprintf("lint %s on %s, linted with the never-configured global registry, no longer gives what it gave before this process had used any configuration: %s", name, o.Name, clipS(df, 240)), name, inputs(o), nil)
+				}
+			}
 			reg := c11All()
 			steps := 3 + rng.Intn(3)
 			var hist []string
